@@ -293,7 +293,7 @@ fn judge_c05(env: &Env, case: &Case, out: &Outcome, injected: Option<u32>, fails
                         fails.push(f("spawn|returned Err but the closure ran|injected failure", format!("{ctxt}: spawn returned Err({}) under injected {} failure, run counter {}", sr.spawn_errno, fl.target, sr.run)));
                     }
                 } else {
-                    rep.class("injected-failure-spawn-ok-join-returned");
+                    rep.class(if s.joined() { "injected-failure-spawn-ok-join-returned" } else { "injected-failure-spawn-ok-handle-dropped" });
                     if sr.run > 1 {
                         fails.push(f("spawn|closure ran more than once|injected failure", format!("{ctxt}: run counter {}", sr.run)));
                     }
@@ -392,6 +392,20 @@ fn judge_c06(env: &Env, case: &Case, out: &Outcome, fails: &mut Vec<Failure>, la
         if r.layout_mismatch != 0 {
             let d = r.log.iter().find(|l| l.mismatch != 0).map(|l| format!("allocated ({}, align {}) freed as ({}, align {})", l.size, l.align, l.d_size, l.d_align)).unwrap_or_default();
             fails.push(f("batch|dealloc layout differs from alloc layout|counting allocator", format!("{on}: {} mismatching deallocations; {d}", r.layout_mismatch)));
+        }
+        if r.uaf_writes != 0 {
+            let d = r
+                .log
+                .iter()
+                .filter(|l| l.damage_off != 0)
+                .map(|l| {
+                    let owner = if l.spec != 0 { format!("allocated inside the spawn call of spec {} ({})", l.spec - 1, spec_text(&b.specs[l.spec as usize - 1])) } else { format!("allocated by tid {}", l.alloc_tid) };
+                    let party = if l.free_tid == base.main_tid { "the main thread (handle side)".to_string() } else { format!("thread {}", l.free_tid) };
+                    format!("block of {} bytes (align {}) {owner}, freed by {party}: {} byte(s) from offset {} were written after the free (offset 4..8 of a join state is the exit futex the kernel clears at thread exit, offsets >= 24 the result slot)", l.size, l.align, l.damage_n, l.damage_off - 1)
+                })
+                .collect::<Vec<_>>();
+            let shape = r.log.iter().find(|l| l.damage_off != 0).map(|l| if l.damage_off - 1 < 8 { "exit futex / flag word" } else { "beyond the header" }).unwrap_or("block of an earlier batch");
+            fails.push(f(format!("batch|write into freed memory|{shape}"), format!("{on}: {} freed blocks were written to before every thread of the batch was gone: {}", r.uaf_writes, d.join("; "))));
         }
         if r.old_freed != 0 {
             fails.push(f("batch|block of the baseline freed during the batch|counting allocator", format!("{on}: {} blocks that were live before the batch were freed during it", r.old_freed)));
@@ -725,6 +739,20 @@ fn batch_strategy(c06: bool) -> impl Strategy<Value = Batch> {
         3 => prop::collection::vec(spec_strategy(c06), 1..=6),
         2 => prop::collection::vec(spec_strategy(c06), 7..=24),
         1 => prop::collection::vec(spec_strategy(c06), 25..=64),
+        // crowd: every thread sleeps 1-2 ms and no disposition is carried out before all are spawned, so that
+        // tens of threads are live at the same time
+        1 => prop::collection::vec((spec_strategy(c06), 1_000_000u32..=2_000_000), 16..=64).prop_map(|v| {
+            v.into_iter()
+                .map(|(mut s, ns)| {
+                    s.child_delay = Delay::Sleep(ns);
+                    if s.disp == DISP_DROP_FINISHING {
+                        s.disp = DISP_DROP_LATER;
+                    }
+                    s.inline = false;
+                    s
+                })
+                .collect()
+        }),
     ]
     .prop_map(|specs| Batch { specs })
 }
@@ -783,6 +811,29 @@ fn fixed_batches() -> Vec<Batch> {
     ]
 }
 
+/// Every (result type x return|panic x disposition) combination once: 90 specs in two batches.
+fn matrix_batches() -> Vec<Batch> {
+    let mut specs = Vec::new();
+    let mut k = 0u64;
+    for ty in 0..9u8 {
+        for panic in [false, true] {
+            for disp in 0..5u8 {
+                k += 1;
+                let (cd, pd, inline) = match disp {
+                    DISP_DROP_FINISHING => (Delay::Spin(30_000), Delay::Spin(30_000 + (k as u32 % 7) * 10_000), true),
+                    DISP_DROP_LATER => (Delay::Spin(2_000 * (k as u32 % 5)), Delay::Sleep(300_000), k % 2 == 0),
+                    DISP_DROP_NOW => (Delay::Spin(50_000), Delay::None, false),
+                    DISP_JOIN => (if k % 2 == 0 { Delay::Sleep(200_000) } else { Delay::None }, if k % 3 == 0 { Delay::Sleep(400_000) } else { Delay::None }, k % 4 == 0),
+                    _ => (Delay::Spin(10_000), Delay::None, false),
+                };
+                specs.push(sp(ty, panic, disp, inline, cd, pd, (k * 37 % 300) as u16, 0xC06_0000 + k));
+            }
+        }
+    }
+    let second = specs.split_off(45);
+    vec![Batch { specs }, Batch { specs: second }]
+}
+
 fn builds_for(ctx: &Ctx) -> Vec<&'static str> {
     if ctx.thorough() {
         MODES.to_vec()
@@ -812,11 +863,30 @@ pub fn run(ctx: &Ctx) {
     let builds = builds_for(ctx);
     let max_b = if ctx.thorough() { 10 } else { 5 };
     if c06 {
-        ctx.run_prop_opts("release", ctx.cases(10, 500), 150, case_strategy(true, builds.clone(), false, max_b), |c| run_case(&env, c));
-        ctx.run_prop_opts("release-strace", ctx.cases(3, 60), 60, case_strategy(true, builds.clone(), true, 2), |c| run_case(&env, c));
+        ctx.run_prop_opts("release", ctx.cases(40, 1500), 150, case_strategy(true, builds.clone(), false, max_b), |c| run_case(&env, c));
+        ctx.run_prop_opts("release-strace", ctx.cases(6, 120), 60, case_strategy(true, builds.clone(), true, 2), |c| run_case(&env, c));
+        // fixed cases: the complete (type x return|panic x disposition) matrix under strace, and the two minimal
+        // histories in which a heap-owning result meets a dropped handle (one per outcome of the flag race)
+        if let Some(case) = ctx.replay_case::<Case>("fixed") {
+            ctx.run_one("fixed", &case, || run_case(&env, &case));
+        } else if !ctx.is_replay() {
+            let mut all = Vec::new();
+            for build in &builds {
+                for strace in [false, true] {
+                    all.push(Case { build: build.to_string(), strace, fault: None, batches: matrix_batches() });
+                }
+                all.push(Case { build: build.to_string(), strace: false, fault: None, batches: vec![Batch { specs: vec![sp(TY_VEC, false, DISP_DROP_NOW, false, Delay::Spin(100_000), Delay::None, 8, 77)] }] });
+                all.push(Case { build: build.to_string(), strace: false, fault: None, batches: vec![Batch { specs: vec![sp(TY_VEC, false, DISP_DROP_LATER, false, Delay::None, Delay::Sleep(2_000_000), 8, 78)] }] });
+            }
+            for (k, case) in all.iter().enumerate() {
+                if k as u32 % ctx.nworkers == ctx.worker && !ctx.run_one("fixed", case, || run_case(&env, case)) {
+                    break;
+                }
+            }
+        }
     } else {
-        ctx.run_prop_opts("join", ctx.cases(10, 500), 150, case_strategy(false, builds.clone(), false, max_b), |c| run_case(&env, c));
-        ctx.run_prop_opts("join-strace", ctx.cases(2, 40), 60, case_strategy(false, builds.clone(), true, 2), |c| run_case(&env, c));
+        ctx.run_prop_opts("join", ctx.cases(40, 1500), 150, case_strategy(false, builds.clone(), false, max_b), |c| run_case(&env, c));
+        ctx.run_prop_opts("join-strace", ctx.cases(5, 100), 60, case_strategy(false, builds.clone(), true, 2), |c| run_case(&env, c));
         // complete fault enumeration on the fixed batches: every stack mmap, every clone (x EAGAIN, ENOMEM)
         if let Some(case) = ctx.replay_case::<Case>("fault") {
             ctx.run_one("fault", &case, || run_case(&env, &case));
